@@ -3,6 +3,8 @@ import MirProofs.Lemmas.Segment
 import MirProofs.Lemmas.SegmentReal
 import MirProofs.Lemmas.SegmentText
 import MirProofs.Lemmas.SegmentRel
+import MirProofs.Lemmas.EmiSupport
+import MirProofs.Lemmas.IntervalsRound
 /-!
   C16 — segment labelling scores equal their clustering-index definitions.
 
@@ -406,6 +408,60 @@ theorem ami_textbook (yr ye : List Nat) (h : yr.length = ye.length) (hs : ¬ miS
       (miSum yr ye - emiText yr ye) / (max (shannon yr) (shannon ye) - emiText yr ye) := by
   rw [amiIdx_real h hs]
 
+/-- **hypergeometric_weights_sum_one (Vandermonde).** For row sum `a`, column sum `b` and total `n` (`a, b ≤ n`)
+    the hypergeometric weights `C(a,k)·C(n−a, b−k)/C(n,b)` over the loop's own range `k = max(1, a+b−n) … min(a,b)`
+    plus the `k = 0` weight sum to 1: the loop of `_expected_mutual_info` leaves out no part of the support except
+    `k = 0`, where the MI summand `(k/n)·log(…)` is 0. -/
+theorem hypergeometric_weights_sum_one (n a b : Nat) (ha : a ≤ n) (hb : b ≤ n) :
+    ((a.choose 0 : ℝ) * ((n - a).choose b : ℝ)) / (n.choose b : ℝ) +
+      ∑ k ∈ Finset.Icc (max (a + b - n) 1) (min a b),
+        ((a.choose k : ℝ) * ((n - a).choose (b - k) : ℝ)) / (n.choose b : ℝ) = 1 :=
+  Mir.Hypergeom.weight_zero_add_sum_loop ha hb
+
+/-- the same about the weights as the code computes them (`exp` of the `gammaln` combination, `hypFact`): over the
+    loop's range they sum to `1 − P(K = 0) = 1 − C(n−a, b)/C(n,b)`. -/
+theorem loop_weights_sum (n a b : Nat) (ha : a ≤ n) (hb : b ≤ n) :
+    ∑ k ∈ Finset.Icc (max (a + b - n) 1) (min a b), hypFact n a b k =
+      1 - ((n - a).choose b : ℝ) / (n.choose b : ℝ) :=
+  hypFact_sum_loop ha hb
+
+/-- the weights are a probability distribution on `k = 0 … min(a,b)`: non-negative, total mass 1, and 0 below
+    `a + b − n` (so the support is `max(0, a+b−n) … min(a,b)`). -/
+theorem hypergeometric_is_distribution (n a b : Nat) (ha : a ≤ n) (hb : b ≤ n) :
+    (∀ k, 0 ≤ ((a.choose k : ℝ) * ((n - a).choose (b - k) : ℝ)) / (n.choose b : ℝ)) ∧
+    (∀ k, n + k < a + b → ((a.choose k : ℝ) * ((n - a).choose (b - k) : ℝ)) / (n.choose b : ℝ) = 0) ∧
+    (∀ k, a < k → ((a.choose k : ℝ) * ((n - a).choose (b - k) : ℝ)) / (n.choose b : ℝ) = 0) ∧
+    ∑ k ∈ Finset.range (min a b + 1),
+      ((a.choose k : ℝ) * ((n - a).choose (b - k) : ℝ)) / (n.choose b : ℝ) = 1 :=
+  ⟨fun k => Mir.Hypergeom.weight_nonneg n a b k, fun _ h => Mir.Hypergeom.weight_eq_zero_of_lt ha h,
+   fun _ h => Mir.Hypergeom.weight_eq_zero_of_gt h, Mir.Hypergeom.weight_sum_range_min ha hb⟩
+
+/-- **emi_is_hypergeometric_expectation.** On the margins of the contingency table of two equally long label
+    sequences, the triple loop of `_adjusted_mutual_info_score` is exactly
+    `Σ_x Σ_y E[(K/n)·log(n K/(a_x b_y))]` with `K ~ Hypergeometric(n, a_x, b_y)`, the expectation
+    (`Mir.Hypergeom.hypExpect`) being the sum over the WHOLE support `k = 0 … min(a_x, b_y)` of summand times
+    `C(a_x,k) C(n−a_x, b_y−k)/C(n, b_y)` — a law of total mass 1 (`hypergeometric_total_mass`). -/
+theorem emi_is_hypergeometric_expectation (yr ye : List Nat) (h : yr.length = ye.length) :
+    expectedMI (α := ℝ) (rowSums (contingency yr ye)) (colSums (contingency yr ye) (classes ye).length)
+        yr.length =
+      ((classes yr).map fun x => ((classes ye).map fun y =>
+        Mir.Hypergeom.hypExpect yr.length (yr.count x) (ye.count y)
+          (fun k => ((k : ℝ) / yr.length) *
+            Real.log ((yr.length : ℝ) * k / ((yr.count x : ℝ) * (ye.count y : ℝ))))).sum).sum := by
+  rw [expectedMI_table h, emiText_eq_hypExpect]
+  rfl
+
+/-- total mass 1: under the hypergeometric law the expectation of a constant is that constant. -/
+theorem hypergeometric_total_mass (n a b : Nat) (ha : a ≤ n) (hb : b ≤ n) (c : ℝ) :
+    Mir.Hypergeom.hypExpect n a b (fun _ => c) = c :=
+  Mir.Hypergeom.hypExpect_const ha hb c
+
+example : ((Nat.choose 2 0 : ℝ) * (Nat.choose 2 3 : ℝ)) / (Nat.choose 4 3 : ℝ) = 0 ∧
+    Finset.Icc (max (2 + 3 - 4) 1) (min 2 3) = {1, 2} ∧
+    ((Nat.choose 2 1 : ℝ) * (Nat.choose 2 2 : ℝ)) / (Nat.choose 4 3 : ℝ) +
+      ((Nat.choose 2 2 : ℝ) * (Nat.choose 2 1 : ℝ)) / (Nat.choose 4 3 : ℝ) = 1 := by
+  refine ⟨by norm_num [Nat.choose], by decide, by norm_num [Nat.choose]⟩
+
 example : rowSums (contingency [0, 0, 1, 1] [0, 1, 1, 1]) = [2, 2] ∧
     colSums (contingency [0, 0, 1, 1] [0, 1, 1, 1]) 2 = [1, 3] := by decide +kernel
 
@@ -446,6 +502,27 @@ theorem frames_carry_labelAt {lo : ℚ} {xs : LI Label} (hc : Iv.Chain lo xs) (f
     (hi : i < numSamples (Iv.ivals xs) fs) {l : Label} (h : Iv.labelAt xs ((i : ℚ) * fs) = some l) :
     (frameLabels (Iv.ivals xs) (Iv.labels xs) fs)[i]? = some (some l) :=
   frameLabels_of_labelAt hc fs hi h
+
+/-- **frames_with_gaps.** For ANY sorted, non-overlapping annotation (gaps allowed, `Iv.Chain`) the frame-label
+    sequence is completely described by the half-open denotation: frame `i` carries `labelAt` at its time `i·fs`
+    where that is defined, and otherwise — in a gap, before the first or after the last row — the label of the row
+    that ENDS exactly at that time if there is one (`Iv.endLabel`: the code samples closed spans), else the fill
+    value `None`.  `frames_are_labelAt` is the gap-free case, `frames_carry_labelAt` the first clause. -/
+theorem frames_with_gaps {lo : ℚ} {xs : LI Label} (hc : Iv.Chain lo xs) (fs : ℚ) :
+    frameLabels (Iv.ivals xs) (Iv.labels xs) fs =
+      (List.range (numSamples (Iv.ivals xs) fs)).map fun (i : Nat) =>
+        (Iv.labelAt xs ((i : ℚ) * fs)).or (Iv.endLabel xs ((i : ℚ) * fs)) := by
+  rw [frameLabels_eq_map_labelAtC]
+  apply List.map_congr_left
+  intro i _
+  exact Iv.labelAtC_chain hc _
+
+example : Iv.Chain 0 [((0 : ℚ), (1 : ℚ), ['a']), (2, 3, ['b'])] ∧
+    frameLabels [(0, 1), (2, 3)] [['a'], ['b']] (1/2) =
+      [some ['a'], some ['a'], some ['a'], none, some ['b'], some ['b']] ∧
+    Iv.labelAt [((0 : ℚ), (1 : ℚ), ['a']), (2, 3, ['b'])] 1 = none ∧
+    Iv.endLabel [((0 : ℚ), (1 : ℚ), ['a']), (2, 3, ['b'])] 1 = some ['a'] := by
+  refine ⟨⟨?_, ?_, ?_, ?_, trivial⟩, ?_, ?_, ?_⟩ <;> decide +kernel
 
 example : Iv.Contig 0 [((0 : ℚ), (1 : ℚ), ['a']), (1, 2, ['b'])] ∧
     frameLabels [(0, 1), (1, 2)] [['a'], ['b']] (1/2) = [some ['a'], some ['a'], some ['b'], some ['b']] ∧
